@@ -81,18 +81,18 @@ func (o Op) String() string {
 
 // RB describes the rebalancing configuration a file is created with.
 type RB struct {
-	NoRebalance bool    `json:"no_rebalance,omitempty"` // WithBTreeRebalancing(false)
-	Lazy        bool    `json:"lazy,omitempty"`
-	LazyThr     float64 `json:"lazy_threshold,omitempty"`
-	LazyDelayNS int64   `json:"lazy_delay_ns,omitempty"`
-	LazyBatch   int     `json:"lazy_batch,omitempty"`
-	Incr        bool    `json:"incremental,omitempty"`
-	IncrBudget  int64   `json:"incr_budget_ns,omitempty"`
-	IncrEvery   int64   `json:"incr_interval_ns,omitempty"`
-	Smart       bool    `json:"smart,omitempty"`
-	SmartDetect bool    `json:"smart_autodetect,omitempty"`
-	SmartSwitch bool    `json:"smart_autoswitch,omitempty"`
-	SmartMin    uint64  `json:"smart_min_file_size,omitempty"`
+	NoRebalance bool     `json:"no_rebalance,omitempty"` // WithBTreeRebalancing(false)
+	Lazy        bool     `json:"lazy,omitempty"`
+	LazyThr     float64  `json:"lazy_threshold,omitempty"`
+	LazyDelayNS int64    `json:"lazy_delay_ns,omitempty"`
+	LazyBatch   int      `json:"lazy_batch,omitempty"`
+	Incr        bool     `json:"incremental,omitempty"`
+	IncrBudget  int64    `json:"incr_budget_ns,omitempty"`
+	IncrEvery   int64    `json:"incr_interval_ns,omitempty"`
+	Smart       bool     `json:"smart,omitempty"`
+	SmartDetect bool     `json:"smart_autodetect,omitempty"`
+	SmartSwitch bool     `json:"smart_autoswitch,omitempty"`
+	SmartMin    uint64   `json:"smart_min_file_size,omitempty"`
 	SmartModes  []string `json:"smart_modes,omitempty"`
 }
 
@@ -122,6 +122,8 @@ type Exec struct {
 	DS   map[string]*hdf5.DatasetWriter
 	GR   map[string]*hdf5.GroupWriter
 	Res  []OpRes
+	// CloseRes is the outcome of the final Close issued by Run/RunWith.
+	CloseRes OpRes
 	// Hook, if set, is called before (phase "pre") and after (phase "post") every executed op.
 	Hook func(i int, op *Op, phase string, res *OpRes)
 	// closedFW keeps the last closed writer so that operations on a closed handle can be probed.
@@ -533,7 +535,10 @@ func RunWith(e *Exec, s *Script) *Exec {
 	for i := range s.Ops {
 		e.Step(i, &s.Ops[i])
 	}
-	e.Finish()
+	e.CloseRes = e.Finish()
+	if e.CloseRes.Skipped != "" {
+		e.CloseRes = OpRes{}
+	}
 	return e
 }
 
